@@ -85,6 +85,7 @@ func C13(p *load.Prog, r *oblig.Run) {
 	r.Rule("R13.c", "all fills of the document's pointer index use the same store operation (they agree on which record wins a duplicated pointer)", 1)
 	c13PointerFills(p, r)
 	r.Rule("R13.b", "every writer of a membership field invalidates every cache derived from that field: it can reach an invalidation, and one is executed whenever the store is", 8)
+	c13FieldInventory(p, r)
 	r.Rule("R13.d", "a function that calls a membership writer and resets a cache itself (because the writer cannot) does so on every path after the call", 2)
 	g := cg.New(p, false)
 	explicit, accessors := readOnlyRoots(p, g)
@@ -743,5 +744,81 @@ func c13PointerFills(p *load.Prog, r *oblig.Run) {
 			parts = append(parts, n+" in "+strings.Join(ops[n], ", "))
 		}
 		o.Fail("the fills of the pointer index use different store operations (" + strings.Join(parts, "; ") + "): for a pointer used by two records one fill keeps the first record and the other the last, so NodeByPointer answers differently after a rebuild (DeleteNode, SetNodes) than after the incremental adds - and differently from a fresh decode")
+	}
+}
+
+// c13FieldInventory (R13.e): every field of a node type or of Document that is assigned outside a constructor is
+// classified: structural, a cache that the pairing rule knows, or listed here as plain state with a reason. A new field
+// that a getter fills (an unreviewed memo) is reported instead of silently escaping the cache-pairing rule.
+var plainNodeFields = map[string]string{}
+
+func c13FieldInventory(p *load.Prog, r *oblig.Run) {
+	r.Rule("R13.e", "every field of a node type or of Document that is assigned after construction is structural, a known cache, or reviewed plain state", 1)
+	type site struct {
+		pos string
+		fn  string
+	}
+	found := map[string][]site{}
+	for _, fn := range p.Repo {
+		if pkgPathOf(fn) != load.PkgRoot || len(fn.Blocks) == 0 {
+			continue
+		}
+		n := strings.ToLower(fn.Name())
+		if strings.HasPrefix(n, "new") {
+			continue
+		}
+		for _, b := range fn.Blocks {
+			for _, ins := range b.Instrs {
+				st, ok := ins.(*ssa.Store)
+				if !ok {
+					continue
+				}
+				fa, ok := st.Addr.(*ssa.FieldAddr)
+				if !ok {
+					continue
+				}
+				ow := su.FieldOwner(fa)
+				if ow == nil || ow.Obj().Pkg() == nil || ow.Obj().Pkg().Path() != load.PkgRoot {
+					continue
+				}
+				// node types (embed *SimpleNode or are SimpleNode) and Document
+				stt, _ := ow.Underlying().(*types.Struct)
+				isNode := ow.Obj().Name() == "SimpleNode" || ow.Obj().Name() == "Document"
+				if stt != nil {
+					for i := 0; i < stt.NumFields(); i++ {
+						if stt.Field(i).Embedded() && strings.HasSuffix(stt.Field(i).Type().String(), "SimpleNode") {
+							isNode = true
+						}
+					}
+				}
+				if !isNode {
+					continue
+				}
+				if _, fresh := fa.X.(*ssa.Alloc); fresh {
+					continue
+				}
+				name := ow.Obj().Name() + "." + su.FieldName(fa)
+				if e4.FieldClass(ow, su.FieldName(fa)) != "" {
+					continue
+				}
+				if _, ok := plainNodeFields[name]; ok {
+					continue
+				}
+				found[name] = append(found[name], site{p.Pos(st.Pos()), load.FuncName(fn)})
+			}
+		}
+	}
+	var names []string
+	for n := range found {
+		names = append(names, n)
+	}
+	sort.Strings(names)
+	if len(names) == 0 {
+		r.Add("R13.e", "field inventory", "-", "fields assigned after construction").OK("all classified")
+		return
+	}
+	for _, n := range names {
+		s := found[n][0]
+		r.Add("R13.e", "field "+n, s.pos, "assignment of an unclassified field").Fail(fmt.Sprintf("the field %s is assigned in %s (after construction) but is neither a structural field, a cache known to the pairing rule, nor reviewed plain state: if it remembers something computed from the document (a memo), no edit invalidates it and reads after an edit return what was true before", n, s.fn))
 	}
 }
